@@ -602,6 +602,12 @@ func c04One(bi, wk int, d c04Damage, root, base string, w []c03Step, seed int64,
 					}
 					return "", ""
 				}, true)
+				if sig == "acked-sample-lost" && d.file == "hc" && conc.Snapshot {
+					// known deviation KF-C04-3: with EnableMemorySnapshotOnShutdown the chunk snapshot is trusted although
+					// repairLastChunkFile has silently removed the (truncated) newest head-chunk file it depends on
+					sig = "snapshot:acked-sample-lost"
+					msg += " (chunk snapshot enabled: the snapshot is loaded and the WAL replayed only from its offset although the m-mapped chunk file it relies on was removed by repairLastChunkFile)"
+				}
 				if sig == "deleted-sample-replayed-from-wal" {
 					sig = "phantom-sample" // KF-C03-3 needs a dropped block; the damage tables already allow deleted samples (may = ever written)
 				}
